@@ -63,18 +63,35 @@ type getter interface {
 
 type impA struct{ v string }
 
-func (r *impA) get() string  { enter(); return r.v }
-func (r *impA) put(x string) { enter(); r.v = x }
+func (r *impA) get() string {
+	enter()
+	return r.v
+}
+func (r *impA) put(x string) {
+	enter()
+	r.v = x
+}
 
 type impB struct{ w, v string }
 
-func (r *impB) get() string  { enter(); return r.v }
-func (r *impB) put(x string) { enter(); r.v = x }
+func (r *impB) get() string {
+	enter()
+	return r.v
+}
+func (r *impB) put(x string) {
+	enter()
+	r.v = x
+}
 
 type valT struct{ v string }
 
-func (r valT) get() string  { enter(); return r.v }
-func (r valT) put(x string) { enter() }
+func (r valT) get() string {
+	enter()
+	return r.v
+}
+func (r valT) put(x string) {
+	enter()
+}
 '''
 
 
